@@ -9,7 +9,7 @@ package merklearray
 //   sha  <alg> <hex>
 //   pair <d> <l> <r>
 //   pv   <alg> <vc> <arr> <idxs>
-//   vf   <alg> <vc> <arr> <root|=> <depth> <path> <elems> <mut> [<detail>]
+//   vf   <alg[/palg]> <vc> <arr> <root|=> <depth> <path> <elems> <mut> [<detail>]   (palg: hash type of the proof, >= 4 invalid)
 // alg = crypto.HashType (0 sha512_256, 2 sha256, 3 sha512); lists comma separated, "-" empty list,
 // "_" empty byte string; arr items are the full hash pre-images (HashRep) of the leaves.
 import (
@@ -123,6 +123,8 @@ func verifErr(err error) string {
 		return "nonEmptyProof"
 	case errors.Is(err, ErrUnexpectedTreeDepth):
 		return "unexpectedDepth"
+	case errors.Is(err, protocol.ErrInvalidObject):
+		return "invalidHash"
 	case errors.Is(err, ErrProvingZeroCommitment):
 		return "zeroCommitment"
 	case strings.Contains(err.Error(), "no more sibling hints"):
@@ -205,7 +207,12 @@ func verifC37Exec(op string) string {
 			verifVerify(f[2], root, elems, p))
 	case "vf":
 		arr := verifBytesList(f[3])
-		t, hf := verifBuild(f[1], f[2], arr)
+		talg, palg := f[1], f[1]
+		if ap := strings.SplitN(f[1], "/", 2); len(ap) == 2 {
+			talg, palg = ap[0], ap[1]
+		}
+		t, _ := verifBuild(talg, f[2], arr)
+		hf := crypto.HashFactory{HashType: crypto.HashType(vh.U(palg))}
 		hroot := t.Root()
 		root := hroot
 		if f[4] != "=" {
@@ -301,6 +308,28 @@ func (g *verifC37Gen) mutate(alg, vc int, arr [][]byte, idxs []uint64, full bool
 	cp := func() []verifPE { return append([]verifPE(nil), base...) }
 	emit("=", depth, path, base, "none")
 	pick := func(k int) bool { return full || g.rng.Intn(k) == 0 }
+	// --- hash factory of the proof: another valid type, invalid types (invalidHash: every digest empty)
+	emitH := func(palg int, rootS string, d int, pth [][]byte, el []verifPE, mut string) {
+		g.add(fmt.Sprintf("vf %d/%d %d %s %s %d %s %s %s", alg, palg, vc, verifShowList(arr), rootS, d, verifShowList(pth), verifShowElems(el), mut))
+	}
+	other := 2
+	if alg == 2 {
+		other = 0
+	}
+	emitH(other, "=", depth, path, base, "hash other-valid")
+	for _, bad := range []int{4, 99, 65535} {
+		if bad != 99 && !pick(3) {
+			continue
+		}
+		emitH(bad, "=", depth, path, base, "hash invalid")
+		emitH(bad, "_", depth, path, base, "hash invalid root empty")
+		empties := make([][]byte, len(path))
+		for i := range empties {
+			empties[i] = []byte{}
+		}
+		emitH(bad, "=", depth, empties, base, "hash invalid path emptied")
+		emitH(bad, "_", depth, empties, base, "hash invalid root empty path emptied")
+	}
 
 	// --- element
 	for k, i := range S {
@@ -530,6 +559,23 @@ func verifC37Generate() []string {
 			}
 		}
 	}
+	// the empty array (root = empty digest): nothing may verify against it, whatever the proof says
+	for _, alg := range algs {
+		for vc := 0; vc <= 1; vc++ {
+			x, y := g.elem(), g.elem()
+			for _, palg := range []int{alg, 2 - alg, 3, 4, 99, 65535} {
+				for _, rootS := range []string{"=", "_"} {
+					for _, d := range []int{0, 1, 2} {
+						for _, pth := range []string{"-", "_", "_,_", verifHex(make([]byte, 32))} {
+							for _, el := range [][]verifPE{{{0, x}}, {{0, x}, {1, y}}, {{1, y}}, {{2, x}, {3, y}}} {
+								g.add(fmt.Sprintf("vf %d/%d %d - %s %d %s %s emptyarr", alg, palg, vc, rootS, d, pth, verifShowElems(el)))
+							}
+						}
+					}
+				}
+			}
+		}
+	}
 	// sha512 (64-byte digests) on a few shapes
 	for _, n := range []int{1, 3, 5} {
 		for vc := 0; vc <= 1; vc++ {
@@ -635,11 +681,24 @@ func TestVerifC37Facts(t *testing.T) {
 	case dp == "no" && dv == "yes":
 		depth = "vconly"
 	}
+	// does Verify reject a proof whose HashFactory is not valid?
+	hashcheck := verifCatch(func() string {
+		et, _ := Build(verifArr{}, hf)
+		bad := &Proof{HashFactory: crypto.HashFactory{HashType: 99}}
+		e1 := Verify(et.Root(), map[uint64]crypto.Hashable{0: verifElem("TEx")}, bad)
+		switch {
+		case e1 == nil:
+			return "nohashcheck"
+		case errors.Is(e1, protocol.ErrInvalidObject):
+			return "hashcheck"
+		}
+		return "other"
+	})
 	dir := os.Getenv("VERIF_OUT")
 	if dir == "" {
 		dir = os.TempDir()
 	}
-	if err := os.WriteFile(filepath.Join(dir, "c37.facts"), []byte(enc+" "+depth+"\n"), 0o644); err != nil {
+	if err := os.WriteFile(filepath.Join(dir, "c37.facts"), []byte(enc+" "+depth+" "+hashcheck+"\n"), 0o644); err != nil {
 		t.Fatal(err)
 	}
 }
